@@ -33,12 +33,21 @@ func (l *lexer) Lex(yylval *gritsSymType) int {
 	yylval.currPosition = position.Position{StartLine: len(startPos.Lines) + 1, StartPos: startPos.Char}
 	yylval.strval = strval
 
+	if token == kILLEGAL && strval != "" {
+		// kILLEGAL shares its code with EOF, so report the character instead of silently ending the input
+		l.Error(fmt.Sprintf("illegal character '%s'", strval))
+	}
+
 	return int(token)
 }
 
 // Error handles error.
 func (l *lexer) Error(err string) {
-	l.Errors <- &ParseError{Err: err, Pos: l.scanner.pos}
+	select {
+	case l.Errors <- &ParseError{Err: err, Pos: l.scanner.pos}:
+	default:
+		// keep the first error only
+	}
 }
 
 func LexAndPrintTokens(file io.Reader) {
